@@ -133,7 +133,7 @@ Fixpoint scan (rs : rstr) (s : bytes) (r : Z) (k : nat) : res :=
 
 (* int rstr_find(struct rstr *rs, char *s, int n, int *grps, int flg), simple path *)
 Definition rstr_find (rs : rstr) (s : bytes) (notbol noteol : bool) : res :=
-  if (r_lbeg rs && notbol) || (r_lend rs && noteol) then NotFound else
+  if r_lbeg rs && notbol then NotFound else                 (* noteol is not consulted: $ is the position before the newline *)
   let len := Z.of_nat (length (r_str rs)) in
   let e := (Z.of_nat (length s) - len - 1)%Z in        (* end = s + strlen(s) - len - 1 *)
   if (e <? 0)%Z then NotFound else                      (* if (end < beg) return -1 *)
